@@ -534,12 +534,15 @@ def _extra_enums():
         # member names that contain another member's name behind the upper-snake class name / behind any prefix
         "Kind": [("KIND_NONE", 7), ("NONE", 0), ("OTHER", 1), ("KIND_OTHER", 2), ("KIND", 3), ("KIND_KIND", 4)],
         "PrefixOf": [("A", 0), ("AB", 1), ("A_B", 2), ("B", 3), ("ab", 4), ("Ab", 5)],
+        # lower-case value names that are also attributes of int / object (legal proto value names)
+        "IntAttrs": [("real", 0), ("imag", 1), ("numerator", 2), ("denominator", 3), ("conjugate", 4), ("bit_length", 5), ("to_bytes", 6)],
     }
     for name, decl in shapes.items():
-        ns = {}
+        ns = {"__module__": __name__, "__qualname__": name}      # so that members pickle by reference to this module
         for n, v in decl:
             ns[n] = v
         cls = betterproto.enum.EnumType(name, (betterproto.Enum,), ns)
+        globals()[name] = cls
         out.append((cls, decl))
     return out
 
@@ -593,7 +596,7 @@ def _c20_lookup(col, Color, decl):
     tag = "" if Color is C.Color else ":alias-shapes"
     for name, num in decl:
         try:
-            if getattr(Color, name) not in Color:
+            if Color[name] not in Color:
                 col.add("member-not-contained%s" % tag, "%s.%s in %s is False" % (Color.__name__, name, Color.__name__))
         except Exception as e:
             col.add("contains-raises%s" % tag, "%s.%s in %s: %s" % (Color.__name__, name, Color.__name__, exc(e)))
@@ -603,14 +606,17 @@ def _c20_lookup(col, Color, decl):
     for name, num in decl:
         cname = canon[num]
         try:
-            member = getattr(Color, cname)
+            # the canonical member is the one the by-name lookup gives (attribute access is only asked for where the
+            # name is not also an attribute of int / object: `real`, `imag`, ... resolve to int's descriptors there)
+            member = Color[cname]
             checks = [
                 ("by-number", lambda: Color(num)),
                 ("by-name-getitem", lambda: Color[name]),
                 ("by-name-from_string", lambda: Color.from_string(name)),
-                ("by-attribute", lambda: getattr(Color, name)),
                 ("try_value", lambda: Color.try_value(num)),
             ]
+            if not hasattr(int, name):
+                checks.append(("by-attribute", lambda: getattr(Color, name)))
             for what, fn in checks:
                 try:
                     got = fn()
@@ -623,10 +629,11 @@ def _c20_lookup(col, Color, decl):
                 col.add("member-name-number%s" % tag, "%s.%s has name %r value %r" % (Color.__name__, cname, member.name, member.value))
             if copy.copy(member) is not member or copy.deepcopy(member) is not member:
                 col.add("copy-identity%s" % tag, "copy/deepcopy of %s.%s is a different object" % (Color.__name__, cname))
-            if Color is C.Color:
+            if Color.__module__ != __name__ or True:
+                # (classes declared at run time pickle by reference to this module: register them there)
                 p = pickle.loads(pickle.dumps(member))
-                if p.name != member.name or p.value != member.value or int(p) != num:
-                    col.add("pickle-name-number", "Color.%s unpickles as name %r value %r" % (cname, p.name, p.value))
+                if getattr(p, "name", "<no name>") != member.name or getattr(p, "value", None) != member.value or not isinstance(p, int) or int(p) != num:
+                    col.add("pickle-name-number%s" % tag, "%s.%s unpickles as %r (name %r value %r)" % (Color.__name__, cname, p, getattr(p, "name", None), getattr(p, "value", None)))
         except Exception as e:
             col.add("static-raises%s" % tag, exc(e))
 
